@@ -128,6 +128,39 @@ def tokenizer_part(ck: Check, n):
         if isinstance(t, SubText):
             return SubText(t.text, t.i, t.j, True)
         return orig['str::to_lowercase'](ex_, args)
+    def _pat_chars(ex_, pv):
+        pv = ex_.deref(pv)
+        if isinstance(pv, int):
+            return [pv]
+        if isinstance(pv, Seq):
+            return [concrete_int(c) for c in pv.elems[:concrete_int(pv.len)]]
+        raise Unsupported('trim pattern %r on a symbolic text' % type(pv))
+
+    def trimmer(at_start, at_end, name):
+        def model(ex_, args):
+            t = ex_.deref(args[0])
+            if isinstance(t, SymText):
+                t = SubText(t, 0, t.n)
+            if not isinstance(t, SubText):
+                if name not in orig:
+                    raise Unsupported(name + ' on ' + str(type(t)))
+                return orig[name](ex_, args)
+            pcs = _pat_chars(ex_, args[1])
+            is_p = lambda q: z3.Or(*[t.text.c[q] == pc_ for pc_ in pcs])
+            i, j = t.i, t.j
+            if at_start:
+                cands = list(range(i, j + 1))
+                conds = [z3.And(*([is_p(q) for q in range(i, ii)] + ([z3.Not(is_p(ii))] if ii < j else []))) for ii in cands]
+                i = cands[ex_.choose(conds)]
+            if at_end:
+                cands = list(range(i, j + 1))
+                conds = [z3.And(*([is_p(q) for q in range(jj, j)] + ([z3.Not(is_p(jj - 1))] if jj > i else []))) for jj in cands]
+                j = cands[ex_.choose(conds)]
+            return SubText(t.text, i, j, t.lowered)
+        return model
+    ex.intrinsics.update({'str::trim_end_matches': trimmer(False, True, 'str::trim_end_matches'),
+                          'str::trim_start_matches': trimmer(True, False, 'str::trim_start_matches'),
+                          'str::trim_matches': trimmer(True, True, 'str::trim_matches')})
     ex.intrinsics.update({'str::char_indices': char_indices, 'str::len': str_len, 'char::is_alphanumeric': is_alnum,
                           'Index::index': index, 'ToOwned::to_owned': to_owned, 'str::to_owned': to_owned,
                           'str::to_lowercase': to_lower})
